@@ -954,6 +954,11 @@ fn gen_input(rng: &mut Rng, p: &Protos, spec: &Spec, sub_rows: &[Vec<usize>], th
         if version < AdtVersion::MoP {
             pat &= !(1 << 10);
         }
+        // De-masking: a file that ends with an MCLQ sub-chunk is rejected by parse_adt (known finding mclq-size-liquid), which ends the case
+        // before anything else is compared. Outside the isolated-feature cases, 3 of 4 such tiles get an MCCV behind the MCLQ of their last chunk.
+        if spec.sub.is_none() && i + 1 == nmcnk && pat & (1 << 6) != 0 && pat >> 7 == 0 && rng.chance(3, 4) {
+            pat |= 1 << 7;
+        }
         sub_patterns.push(pat);
         mcnks.push(gen_mcnk(rng, p, i, pat, nt));
     }
@@ -981,7 +986,7 @@ fn gen_input(rng: &mut Rng, p: &Protos, spec: &Spec, sub_rows: &[Vec<usize>], th
     });
     let mtxf = top("MTXF").then(|| {
         let mut m = p.mtxf.clone();
-        let n = if rng.chance(1, 6) { rng.usize(nt + 3) } else { nt };
+        let n = if rng.chance(1, 6) { 1 + rng.usize(nt + 2) } else { nt };
         m.flags = (0..n).map(|_| if rng.chance(1, 3) { 0 } else { rng.next_u32() }).collect();
         m
     });
@@ -1355,6 +1360,7 @@ fn parse_root(c: &mut Case, bytes: &[u8], w: &Walk, ver: &str, stage: &str, sig_
         Ok(Err(e)) => {
             let d = format!("{e:?}");
             let kind: String = d.chars().take_while(|ch| ch.is_alphanumeric()).collect();
+            c.count("cases_cut_short_by_parse_failure", 1);
             c.violate(format!("{sig_stem}|{kind}|{trig}|{ver}"), format!("[{stage}] parse_adt rejected a file the library wrote itself ({trig}): {e}"), json!({"len": bytes.len(), "error": d.chars().take(300).collect::<String>()}));
             None
         }
